@@ -14,6 +14,9 @@ pub mod rope_ax {
   /// std: `impl PartialEq<[U]> for [T]` compares lengths and elements; for u8 that is equality of the byte sequences
   pub broadcast axiom fn axiom_u8_slice_eq(a: &[u8], b: &[u8])
     ensures <[u8] as vstd::std_specs::cmp::PartialEqSpec<[u8]>>::obeys_eq_spec(), #[trigger] <[u8] as vstd::std_specs::cmp::PartialEqSpec<[u8]>>::eq_spec(a, b) == (a@ == b@);
+  /// std: `impl PartialEq for str` compares the bytes
+  pub broadcast axiom fn axiom_str_eq(a: &str, b: &str)
+    ensures <str as vstd::std_specs::cmp::PartialEqSpec<str>>::obeys_eq_spec(), #[trigger] <str as vstd::std_specs::cmp::PartialEqSpec<str>>::eq_spec(a, b) == (a.spec_bytes() == b.spec_bytes());
   pub broadcast axiom fn axiom_str_len_bound(s: &str)
     ensures #[trigger] s.spec_bytes().len() <= usize::MAX;
 }
